@@ -78,10 +78,10 @@ def termsFrom : Nat → List Int → List (Nat × Int)
 /-- what `for (i = e.begin(); i != e.end(); ++i)` visits: `(i.variable().id(), *i)` -/
 def terms (e : LinExpr) : List (Nat × Int) := termsFrom 0 e.coeffs
 
+/-- (structural recursion on the first list, so that the kernel can evaluate it) -/
 def zipCoeffs (f : Int → Int → Int) : List Int → List Int → List Int
-  | [], [] => []
+  | [], bs => bs.map (f 0)
   | a :: as, [] => f a 0 :: zipCoeffs f as []
-  | [], b :: bs => f 0 b :: zipCoeffs f [] bs
   | a :: as, b :: bs => f a b :: zipCoeffs f as bs
 
 def add (e f : LinExpr) : LinExpr := ⟨zipCoeffs (· + ·) e.coeffs f.coeffs, e.inhom + f.inhom⟩
